@@ -1,6 +1,6 @@
 #!/bin/bash
 # tools/runall.sh [tier] [ids...] : runs the checks one after the other, prints one line per check.
-cd /verif; tier="${1:-quick}"; shift
+cd "$(dirname "$0")/.."; tier="${1:-quick}"; shift
 ids="$@"; [ -z "$ids" ] && ids=$(ls cmd | grep '^c[0-9][0-9]$' | tr a-z A-Z)
 mkdir -p work/runall
 for id in $ids; do
